@@ -2,7 +2,8 @@
    Statements only; proofs are in Proofs/CaptureProofs.v (+ Proofs/TaskLifecycleProofs.v).
    Every theorem is closed by `exact`.  `chunks` is ANY way the OS may cut the output into reads
    (sizes 0, 1, around the preview limit, 8192, the cap, inside multi-byte characters). *)
-From RipV Require Import Base.Prelude Model.TaskLifecycle Model.Capture Proofs.CaptureProofs.
+From RipV Require Import Base.Prelude Model.TaskLifecycle Model.Capture Proofs.CaptureProofs
+  Proofs.TaskLifecycleProofs.
 
 (* background tasks: the log of a stream is byte for byte the first `cap` bytes written, whatever the
    chunking, cap 0 included; the counters say so *)
@@ -15,7 +16,8 @@ Theorem c17_stored_is_prefix_log : forall (cap : N) (chunks : list bytes),
 Proof. exact log_stored_is_prefix. Qed.
 Print Assumptions c17_stored_is_prefix_log.
 
-(* foreground shell tool: totals, the preview = first min(limit,total) bytes, and — iff more than the
+(* foreground shell tool: totals, the preview = the first min(limit,total) bytes (minus an incomplete
+   character at the cut when something was cut), and — iff more than the
    preview limit was written and the cap is not 0 — an artifact whose blob is byte for byte the first
    `amax` bytes written and whose id is the hash of exactly those bytes (H abstract: any hash) *)
 Theorem c17_stored_is_prefix_capture : forall (H : bytes -> N) (pmax amax : N) (chunks : list bytes),
@@ -23,8 +25,8 @@ Theorem c17_stored_is_prefix_capture : forall (H : bytes -> N) (pmax amax : N) (
   let out := concat chunks in
   cp_bytes_total c = nlen out
   /\ cp_truncated c = (pmax <? nlen out)
-  /\ cp_bytes_preview c = N.min pmax (nlen out)
-  /\ cp_lines c = lines (lossy (take pmax out))
+  /\ (let pv := shell_preview (take pmax out) (pmax <? nlen out) in
+      cp_bytes_preview c = nlen pv /\ cp_lines c = lines (lossy pv) /\ nlen pv <= pmax)
   /\ match cp_artifact c with
      | Some a => pmax < nlen out /\ amax <> 0
                  /\ cp_blob c = take amax out /\ a_id a = H (take amax out)
@@ -55,3 +57,76 @@ Theorem c17_preview_prefix : forall (bs : bytes) (m : N),
   /\ (utf8_ok (take used bs) = true -> t = take used bs).
 Proof. exact truncate_utf8_spec. Qed.
 Print Assumptions c17_preview_prefix.
+
+(* the output pump: it stores what the log writer stores, every chunk gets one delta frame carrying the
+   append's range, so the ranges referenced by the output frames are consecutive, non-overlapping,
+   cover [0, stored) and name their chunk's bytes; the inline preview is truncate_utf8 of the chunk
+   (c17_preview_prefix) — for every chunking, cap and preview limit, 0 included *)
+Theorem c17_frame_ranges_tile : forall (cap plimit : N) (chunks : list bytes),
+  let '(w, fs) := pump cap plimit chunks in
+  w = fst (lw_run (lw_new cap) chunks)
+  /\ map df_info fs = snd (lw_run (lw_new cap) chunks)
+  /\ consecutive 0 (map range_of (map df_info fs))
+  /\ tiles 0 (map range_of (map df_info fs)) = nlen (lw_file w)
+  /\ ranges_hold (lw_file w) (map df_info fs) chunks
+  /\ Forall2 (fun f c => df_preview f = fst (fst (truncate_utf8 c (N.min plimit OUTPUT_EVENT_MAX_BYTES)))) fs chunks.
+Proof. exact pump_frames_tile. Qed.
+Print Assumptions c17_frame_ranges_tile.
+
+(* S17 — the pump before the repair (frame only when the preview is non-empty): with preview limit 0
+   the frames' ranges do not cover the stored log.  Replayed on the real code, fixed in /repo. *)
+Theorem c17_frame_ranges_unfixed_refuted :
+  exists cap plimit chunks,
+    let '(w, fs) := pump_unfixed cap plimit chunks in
+    tiles 0 (map range_of (map df_info fs)) <> nlen (lw_file w).
+Proof. exact pump_unfixed_ranges_refuted. Qed.
+Print Assumptions c17_frame_ranges_unfixed_refuted.
+
+(* S12 — the range reader before the repair: a valid UTF-8 log read in pages of >= 4 bytes, each page
+   advancing by the reported `bytes`, does not concatenate to the log ("aééé", pages of 4). *)
+Theorem c17_pages_unfixed_refuted :
+  exists file maxb fuel,
+    utf8_ok file = true /\ 4 <= maxb
+    /\ concat (map pg_content (page_walk read_range_unfixed fuel file 0 maxb)) <> file.
+Proof. exact pages_unfixed_refuted. Qed.
+Print Assumptions c17_pages_unfixed_refuted.
+
+(* ---------------- lifecycle ----------------
+   `run sched` executes ANY list of actions of the waiter, the two output pumps, the child and cancel
+   requests (disabled actions are skipped, so every list is a schedule: every interleaving, a cancel
+   at any moment, repeated cancels, early EOF, wait failures).  The frames emitted are a prefix of a
+   word of  Spawned · Running? · Delta* · (CancelReq · Delta* · Cancelled)? · Status  and a complete
+   word exactly when the waiter has finished — or the single frame `Status failed` of a pre-spawn
+   failure (unsupported tool / invalid args / artifacts dir), which has no spawn frame (S12b). *)
+Theorem c17_lifecycle : forall sched : list act,
+  let s := run sched in
+  let t := trace s in
+  (r_prefix_ok (recognise t) = true /\ (s_main s = MEnd <-> r_complete (recognise t) = true))
+  \/ (spawnless_failed t = true /\ s_main s = MEnd).
+Proof. exact lifecycle_language. Qed.
+Print Assumptions c17_lifecycle.
+
+(* nothing follows the terminal status frame, whatever happens afterwards *)
+Theorem c17_terminal_is_last : forall sched more : list act,
+  s_main (run sched) = MEnd -> trace (run (sched ++ more)) = trace (run sched).
+Proof. exact terminal_is_last. Qed.
+Print Assumptions c17_terminal_is_last.
+
+(* frames are only appended *)
+Theorem c17_trace_monotone : forall sched more : list act,
+  exists suffix, trace (run (sched ++ more)) = trace (run sched) ++ suffix.
+Proof. exact trace_monotone. Qed.
+Print Assumptions c17_trace_monotone.
+
+(* what the recogniser accepts, spelled out: one spawn frame first, running at most once and right
+   after it, deltas only while running, a cancel request before the cancelled frame, exactly one
+   terminal status and it is last *)
+Theorem c17_language_shape : forall t : list lev, shape (recognise t) t.
+Proof. exact recognise_shape. Qed.
+Print Assumptions c17_language_shape.
+
+Example c17_cancelled_task :
+  trace (run sched_cancel)
+  = [LSpawned; LRunning; LDelta 0; LDelta 1; LCancelReq; LDelta 0; LCancelled; LStatus 3]
+  /\ s_main (run sched_cancel) = MEnd.
+Proof. exact sched_cancel_trace. Qed.
